@@ -82,6 +82,47 @@ def make_recorder():
     return Rec
 
 
+def make_boundary(Rec):
+    class Boundary(Rec):
+        """a generator whose draws sit on the BOUNDARY of what each distribution can return (the largest / smallest index, the ends
+        of the interval): values a seeded stream produces with probability ~1e-4 or less, and exactly where off-by-one errors
+        live.  Calls it cannot place on a boundary fall through to the underlying PCG64 stream."""
+
+        def __init__(self, seed, side):
+            super().__init__(seed)
+            self.side = side            # "hi" | "lo" | "mixed"
+            self.calls = {"integers": 0, "choice": 0}      # only the first two calls of each kind sit on the boundary: rejection
+            #                                                  loops ("draw again until it differs") must be able to end
+
+        def _pick(self, k):
+            return {"hi": True, "lo": False}.get(self.side, k % 2 == 0)
+
+        def integers(self, low, high=None, size=None, dtype=np.int64, endpoint=False):
+            if high is None:
+                low, high = 0, low
+            try:
+                lo_, hi_ = int(low), int(high) - (0 if endpoint else 1)
+            except Exception:       # noqa: BLE001    array-valued bounds: leave it to numpy
+                return super().integers(low, high, size=size, dtype=dtype, endpoint=endpoint)
+            self.calls["integers"] += 1
+            if hi_ < lo_ or self.calls["integers"] > 2:
+                return super().integers(low, high, size=size, dtype=dtype, endpoint=endpoint)
+            if size is None:
+                return self._rec("integers", dtype(hi_ if self._pick(len(self.log)) else lo_))
+            out = np.array([hi_ if self._pick(i) else lo_ for i in range(int(np.prod(size)))], dtype=dtype).reshape(size)
+            return self._rec("integers", out)
+
+        def choice(self, a, size=None, replace=True, p=None, axis=0, shuffle=True):
+            self.calls["choice"] += 1
+            if p is not None or not replace or not isinstance(a, (int, np.integer)) or self.calls["choice"] > 2:
+                return super().choice(a, size=size, replace=replace, p=p, axis=axis, shuffle=shuffle)
+            if size is None:
+                return self._rec("choice", np.int64(a - 1 if self._pick(len(self.log)) else 0))
+            out = np.array([a - 1 if self._pick(i) else 0 for i in range(int(np.prod(size)))], dtype=np.int64).reshape(size)
+            return self._rec("choice", out)
+    return Boundary
+
+
 # ------------------------------------------------------------------------------------------------
 # family recognition
 
@@ -298,6 +339,42 @@ def run(tier: str, budget: Budget, rnd, arg) -> StreamResult:
                       {"kind": "generator", "key": key, "n": n, "seed": seed, "clause": clause, "detail": detail},
                       key=f"generator:{key}:{clause}")
 
+    # ---- boundary draws and numpy-integer player counts (oracle on the real code only: in class, no raise)
+    Boundary = make_boundary(Rec)
+    NUMPY_COUNT_REJECTED_BY_THE_UNCHANGED_TREE = {"factory_cheerleader_next"}      # domain note: its numpy cheerleader draw + n arithmetic
+    for key in keys:
+        if not budget.ok():
+            break
+        fam, kw = fams[key]
+        if fam in SEED_IGNORING:
+            continue
+        for n_b, side in ((3, "hi"), (4, "lo"), (5, "mixed"), (8, "hi")) if tier == "quick" else \
+                [(n_, sd) for n_ in (3, 4, 5, 6, 7, 8) for sd in ("hi", "lo", "mixed")]:
+            seed = rnd.randrange(2 ** 31)
+            try:
+                game = call(GM, key, n_b, Boundary(seed, side))
+            except Exception as e:      # noqa: BLE001
+                violate(key, n_b, seed, type(e).__name__, f"with every integers()/choice() draw on the {side} boundary of its range: {str(e)[:160]}")
+                continue
+            res.evaluations += 1
+            res.count(f"boundary-draws:{side}")
+            for clause, detail in oracle_values(key, fam, n_b, game)[:1]:
+                violate(key, n_b, seed, clause, dict(detail, draws=f"on the {side} boundary"))
+        # the player count as a numpy integer (an element of np.arange(3, 9), rng.integers(3, 9)): the same game as for the Python int
+        if key not in NUMPY_COUNT_REJECTED_BY_THE_UNCHANGED_TREE:
+            n_i = 3 + (len(key) % 3)
+            seed = rnd.randrange(2 ** 31)
+            try:
+                v_int = np.array(call(GM, key, n_i, np.random.default_rng(seed)).get_values())
+            except Exception:       # noqa: BLE001     reported by the main loop
+                continue
+            try:
+                v_np = np.array(call(GM, key, np.int64(n_i), np.random.default_rng(seed)).get_values())
+                res.count("player-count:np.int64")
+                if not np.array_equal(v_int, v_np):
+                    violate(key, n_i, seed, "numpy-player-count", "np.int64(n) gives another game than the Python int n")
+            except Exception as e:      # noqa: BLE001
+                violate(key, n_i, seed, "numpy-player-count", f"np.int64(n) raises {type(e).__name__}: {str(e)[:120]} (the Python int n works)")
     first_seen = []      # (key, n, seed, values) of seed-respecting calls, re-requested at the end in another order
     stop = False
     for rnd_i in range(rounds):
